@@ -1,6 +1,13 @@
 import BeyondVerif.Props.C13KvnDict
 /-!
 C13, `load_dump_id` for whole messages in KVN: **OPM** and **OMM**.
+
+`opm_kvn_load_dump_id`, `omm_kvn_load_dump_id`: every well-formed message is read back from what the KVN writer
+produced, with the same normal forms as the XML theorems (`opm_xml_load_dump_id`, `omm_xml_load_dump_id`), hence
+`opm_kvn_xml_agree`, `omm_kvn_xml_agree`.  Assembly: the writer's output is `ordinary lines ++ maneuver lines ++
+user-defined lines` (`opmKvn_eq`), `kvn2dict` turns it into `finalDict base mans ud` (`kvn2dict_blocks` in
+`C13KvnDict.lean`, with `opm_plain_facts` / `omm_plain_facts` for the ordinary lines), and the readers find in that dict
+what they look for (`opm_head_kvn`, `read_mans_kvn`, `read_cov_kvn`, `finalDict_kvnUd`, `omm_core_kvn`).
 -/
 namespace BeyondVerif.C13
 open BeyondVerif.Ccsds BeyondVerif.Generated
@@ -306,6 +313,63 @@ example : (opmKvn opmEx >>= loadOpmKvn) = .ok opmEx :=
     cases hk
     exact ⟨by simp, by simp⟩)
 
+def opmEx2 : Opm :=
+  { name := "SAT", id := "2020-001A", frame := "GCRF", scale := "TAI", epoch := .s "t0",
+    state := [.s "1", .s "2", .s "3", .s "4", .s "5", .s "6"],
+    kep := some [.s "7000", .s "0.001", .s "51", .s "10", .s "20", .s "30", .s "398600.4"],
+    cov := some ⟨some "TNW", [.s "1", .s "2", .s "3", .s "4", .s "5", .s "6", .s "7", .s "8", .s "9", .s "10", .s "11", .s "12", .s "13",
+      .s "14", .s "15", .s "16", .s "17", .s "18", .s "19", .s "20", .s "21"]⟩,
+    mans := [⟨0, .s "t1", some "QSW", some "burn", [.s "1", .s "2", .s "3"]⟩, ⟨60000, .s "t2", none, none, [.s "4", .s "5", .s "6"]⟩,
+      ⟨0, .s "t3", some "TNW", none, [.s "7", .s "8", .s "9"]⟩],
+    ud := some [("FOO", "bar"), ("B", "c")] }
+
+/-- … and by a message with everything in it: Keplerian block, covariance in TNW, three maneuvers (impulsive in QSW with a comment,
+continuous in the orbit's frame, impulsive in TNW), two user-defined fields -/
+theorem opmEx2_wf : OpmWf opmEx2 :=
+  { frame := by decide
+    name := by decide
+    id := by decide
+    scale := by decide
+    epoch := by decide
+    state := ⟨_, _, _, _, _, _, rfl, by decide, by decide, by decide, by decide, by decide, by decide⟩
+    kep := by
+      intro ks h
+      cases h
+      exact ⟨_, _, _, _, _, _, _, rfl, by decide, by decide, by decide, by decide, by decide, by decide, by decide⟩
+    cov := by
+      intro c hc
+      cases hc
+      exact ⟨⟨_, _, _, _, _, _, _, _, _, _, _, _, _, _, _, _, _, _, _, _, _, rfl, by decide⟩, Or.inr (Or.inr rfl)⟩
+    mans := by
+      intro x hx
+      simp only [opmEx2, List.mem_cons, List.not_mem_nil, or_false] at hx
+      rcases hx with rfl | rfl | rfl
+      · exact ⟨⟨⟨_, _, _, rfl, by decide, by decide, by decide⟩, by decide, by decide, by decide⟩, Or.inr (Or.inl rfl)⟩
+      · exact ⟨⟨⟨_, _, _, rfl, by decide, by decide, by decide⟩, by decide, by decide, by decide⟩, Or.inl rfl⟩
+      · exact ⟨⟨⟨_, _, _, rfl, by decide, by decide, by decide⟩, by decide, by decide, by decide⟩, Or.inr (Or.inr rfl)⟩
+    ud := by
+      intro kvs h kv hkv
+      cases h
+      simp only [List.mem_cons, List.not_mem_nil, or_false] at hkv
+      rcases hkv with rfl | rfl <;> decide }
+
+example : (opmKvn opmEx2 >>= loadOpmKvn) = .ok { opmEx2 with kep := none } :=
+  opm_kvn_load_dump_id opmEx2 opmEx2_wf (by
+    intro kvs hk
+    cases hk
+    exact ⟨by decide, by decide⟩)
+
+/-- **agreement of the two encodings, OPM**: reading the KVN text and reading the XML text of the same well-formed OPM give the same object -/
+theorem opm_kvn_xml_agree (m : Opm) (h : OpmWf m) (hud : UdKvnWf m.ud) :
+    (opmKvn m >>= loadOpmKvn) = (opmXml m >>= loadOpmXml) := by
+  rw [opm_kvn_load_dump_id m h hud, opm_xml_load_dump_id m h]
+
+example : (opmKvn opmEx2 >>= loadOpmKvn) = (opmXml opmEx2 >>= loadOpmXml) :=
+  opm_kvn_xml_agree opmEx2 opmEx2_wf (by
+    intro kvs hk
+    cases hk
+    exact ⟨by decide, by decide⟩)
+
 /-! ### OMM -/
 
 /-- everything `omm._dumps_kvn` writes before the user-defined lines -/
@@ -376,7 +440,13 @@ theorem ommFromKvnDict_eq (data : Dict) : ommFromKvnDict data = (do
     pure { name := name, id := id, frame := frame, scale := scale, epoch := epoch, elems := elems, tle := tle,
            cov := cov, ud := kvnUd data, hasTle := false }) := by
   unfold ommFromKvnDict covOfKvn
-  rfl
+  simp only [bind, Except.bind]
+  cases loadOmmCore data data data with
+  | error e => rfl
+  | ok v =>
+    dsimp only
+    generalize (data.lookup "CX_X").isSome = b
+    cases b <;> rfl
 
 /-- the mandatory block of the reader, on any dict that contains the header / metadata / mean-element / TLE pairs -/
 theorem omm_core_kvn (m : Omm) (h : OmmWf m) (c r : String) (hrf : r = m.frame) (D : Dict)
@@ -407,5 +477,83 @@ theorem omm_core_kvn (m : Omm) (h : OmmWf m) (c r : String) (hrf : r = m.frame) 
   have l18 := hD "MEAN_MOTION_DDOT" _ rfl
   simp [loadOmmCore, strOf, textOf, getItem, decodeUnit, Val.text, l1, l2, l3, l4, l5, l6, l7, l8, l9, l10, l11, l12, l13, l14, l15,
     l16, l17, l18, bind, Except.bind, pure, Except.pure, keyErrToCcsds, unitAttrib, ommTheories, unitNames, List.lookup]
+
+/-- **`load_dump_id`, OMM, KVN.**  Every well-formed OMM (frame of the table; name, identifier, scale, epoch, the six mean
+elements and the six TLE parameters any non-empty texts; covariance absent or present in the orbit's frame, QSW or TNW; user-defined
+fields absent, empty, one or many with distinct names; carrying the `Tle` object whenever the writer needs it — it does not, by the
+regenerated table) is read back from what the KVN writer produced.  The result is the same normal form as for XML
+(`omm_xml_load_dump_id`): without the `Tle` object, which no reader restores; an empty user-defined dict read as none. -/
+theorem omm_kvn_load_dump_id (m : Omm) (h : OmmWf m) (hud : UdKvnWf m.ud) (htle : ommKvnNeedsTle = false ∨ m.hasTle = true) :
+    (ommKvn m >>= loadOmmKvn) = .ok { m with hasTle := false, ud := normUd m.ud } := by
+  obtain ⟨c, r, hfo, -, -, -, hrf⟩ := frameOut_ok m.frame h.frame
+  obtain ⟨hplain, hpairs, hfk, cov, hcovmem, hkeys⟩ := omm_plain_facts m h c r
+  obtain ⟨hnd, hnm, hnu⟩ := ommKeys_ok cov hcovmem
+  rw [← hkeys] at hnd hnm hnu
+  have hdict := kvn2dict_blocks m.frame (ommPlain m c r) [] m.ud hplain (by rw [hpairs]; exact hnd) (by rw [hpairs]; exact hnm)
+    (by rw [hpairs]; exact hnu) (by simp) (fun kvs hk => (hud kvs hk).1)
+  rw [hpairs] at hdict
+  have hbu := lookup_none_of_not_mem _ _ hnu
+  have hcore := omm_core_kvn m h c r hrf (finalDict (ommBase m c r) (([] : List Man).map (manDictKvn m.frame)) m.ud)
+    (fun k v hkv => finalDict_lookup_base _ _ _ k v (lookup_append_of_some _ _ _ _ hkv))
+  have hcov := read_cov_kvn m.frame h.frame m.cov h.cov (finalDict (ommBase m c r) (([] : List Man).map (manDictKvn m.frame)) m.ud) (by
+    intro k hk
+    obtain ⟨-, -, h3, h4⟩ := covRead_keys_elsewhere k hk
+    have hf : (ommFixed m c r).lookup k = none :=
+      lookup_none_of_not_mem _ _ (by rw [hfk]; exact covRead_keys_not_omm k hk)
+    rw [finalDict_lookup_other _ _ _ k h3 h4]
+    unfold ommBase
+    rw [lookup_append_of_none _ _ _ hf])
+  have hudk := finalDict_kvnUd (ommBase m c r) (([] : List Man).map (manDictKvn m.frame)) m.ud hbu
+  rw [ommKvn_eq m c r hfo htle]
+  show loadOmmKvn _ = _
+  unfold loadOmmKvn
+  rw [hdict]
+  show ommFromKvnDict _ = _
+  rw [ommFromKvnDict_eq]
+  simp only [hcore, hcov, hudk, bind, Except.bind, pure, Except.pure]
+
+def ommEx : Omm :=
+  { name := "SAT", id := "2020-001A", frame := "TEME", scale := "UTC", epoch := .s "t0",
+    elems := [.s "15.7", .s "0.0006", .s "51.6", .s "247.4", .s "130.5", .s "325.0"],
+    tle := [.s "25544", .s "292", .s "56353", .s "-0.00001", .s "-0.00002", .s "0.0"],
+    cov := some ⟨some "QSW", [.s "1", .s "2", .s "3", .s "4", .s "5", .s "6", .s "7", .s "8", .s "9", .s "10", .s "11", .s "12", .s "13",
+      .s "14", .s "15", .s "16", .s "17", .s "18", .s "19", .s "20", .s "21"]⟩,
+    ud := some [("FOO", "bar"), ("B", "c")], hasTle := false }
+
+/-- the hypotheses are satisfiable by a non-trivial message (covariance in QSW, two user-defined fields, no `Tle` object) -/
+theorem ommEx_wf : OmmWf ommEx :=
+  { frame := by decide
+    name := by decide
+    id := by decide
+    scale := by decide
+    epoch := by decide
+    elems := ⟨_, _, _, _, _, _, rfl, by decide, by decide, by decide, by decide, by decide, by decide⟩
+    tle := ⟨_, _, _, _, _, _, rfl, by decide, by decide, by decide, by decide, by decide, by decide⟩
+    cov := by
+      intro c hc
+      cases hc
+      exact ⟨⟨_, _, _, _, _, _, _, _, _, _, _, _, _, _, _, _, _, _, _, _, _, rfl, by decide⟩, Or.inr (Or.inl rfl)⟩
+    ud := by
+      intro kvs h kv hkv
+      cases h
+      simp only [List.mem_cons, List.not_mem_nil, or_false] at hkv
+      rcases hkv with rfl | rfl <;> decide }
+
+example : (ommKvn ommEx >>= loadOmmKvn) = .ok ommEx :=
+  omm_kvn_load_dump_id ommEx ommEx_wf (by
+    intro kvs hk
+    cases hk
+    exact ⟨by decide, by decide⟩) (Or.inl (by decide))
+
+/-- **agreement of the two encodings, OMM** -/
+theorem omm_kvn_xml_agree (m : Omm) (h : OmmWf m) (hud : UdKvnWf m.ud) (htle : ommKvnNeedsTle = false ∨ m.hasTle = true) :
+    (ommKvn m >>= loadOmmKvn) = (ommXml m >>= loadOmmXml) := by
+  rw [omm_kvn_load_dump_id m h hud htle, omm_xml_load_dump_id m h]
+
+example : (ommKvn ommEx >>= loadOmmKvn) = (ommXml ommEx >>= loadOmmXml) :=
+  omm_kvn_xml_agree ommEx ommEx_wf (by
+    intro kvs hk
+    cases hk
+    exact ⟨by decide, by decide⟩) (Or.inl (by decide))
 
 end BeyondVerif.C13
